@@ -74,8 +74,25 @@ for _k, _v in list(POSITIONS.items()):
         POSITIONS[_k + '-joined-body'] = _v.replace('from {T})', 'from int1.t3 as y join {T} as x on x.a = y.a)') \
             .replace('select a from int1.t3', 'select x.a from int1.t3').replace('select max(a) from int1.t3', 'select max(x.a) from int1.t3') \
             .replace('select * from int1.t3', 'select x.* from int1.t3')
+POSITIONS['nested-from-where-subquery'] = 'select * from (select * from int1.t1) as s where s.a in (select a from {T})'
+POSITIONS['nested-from-where-subquery-deep'] = 'select * from (select * from (select * from int1.t1) as u where u.a in (select a from {T})) as s'
+POSITIONS['nested-from-target-subquery'] = 'select s.a, (select max(a) from {T}) as m from (select * from int1.t1) as s'
+# every SELECT statement also below the top level: as the source of an INSERT / CREATE TABLE, as a branch of a set operation,
+# as a derived table (once and twice nested)
+WRAPPERS = {
+    'insert-source': 'insert into int2.t9 {Q}',
+    'create-table-source': 'create table int2.t9 ({Q})',
+    'union-branch': 'select * from int2.z1 union {Q}',
+    'derived-table': 'select * from ({Q}) as w',
+    'derived-table-twice': 'select * from (select * from ({Q}) as w1) as w2',
+}
+for _k, _v in list(POSITIONS.items()):
+    if _v.startswith('select') and not _k.startswith(('schema', 'two-model', 'model-')):
+        for _wk, _wv in WRAPPERS.items():
+            POSITIONS['%s@%s' % (_k, _wk)] = _wv.replace('{Q}', _v)
 TARGETS = {
     'table-other-int': ('int2.t2', 'int2.t5'),
+    'table-same-int': ('int1.t6', 'int1.t7'),
     'table-default-ns': ('t7', 't8'),
     'model': ('mindsdb.pred', 'mindsdb.pred'),
     'model-versioned': ('proj.pred2.3', 'proj.pred2.3'),
